@@ -12,6 +12,8 @@
 (*   Box<Self<..>> | Vec<Self<..>> | Option<Box<Self>> | Vec<(Self<..>, p)> *)
 (*   Vec<(Self<..>, p::A)>                                                  *)
 (*   #[codec(skip)] p | #[codec(skip)] NoInfoG<p> | #[codec(skip)] NoInfo   *)
+(*   p::<Name> | Vec<p::<Name>>  with an associated type named like the      *)
+(*   deriving type                                                           *)
 (*   #[codec(compact)] u32 | u64 | #[codec(compact)] p | #[codec(compact)]  *)
 (*   p::A  (TypeInfo derive only: with derived Encode the README's known     *)
 (*   issue #65 applies)                                                      *)
@@ -29,9 +31,11 @@ EXTENDS Naturals, Sequences, FiniteSets, SequencesExt, TLC, Json
 CONSTANTS TwoFields, Pairwise
 Templates == {"direct", "vec", "opt", "arr", "tup", "box", "result", "phantom", "assoc", "qassoc", "vecassoc",
               "selfbox", "selfvec", "selfkw", "selfmix", "selfassoc", "skipT", "skipNoInfoG", "skipNoInfo", "compactc", "concrete",
-              "compactp", "compactassoc"}
+              "compactp", "compactassoc", "assocnamed", "vecassocnamed"}
 Encoding == {"direct", "vec", "opt", "arr", "tup", "box", "result", "selfmix", "compactp"}        \* p itself is part of the encoding
 NeedsCfg == {"assoc", "qassoc", "vecassoc", "selfassoc", "compactassoc"}
+\* p::G and Vec<p::G> where the associated type is NAMED LIKE THE DERIVING TYPE G (its own trait): not a self reference
+NamedLikeSelf == {"assocnamed", "vecassocnamed"}
 SelfRef == {"selfbox", "selfvec", "selfkw", "selfmix", "selfassoc"}
 Skipped == {"skipT", "skipNoInfoG", "skipNoInfo"}
 MentionsP == Templates \ {"selfbox", "selfvec", "selfkw", "skipNoInfo", "compactc", "concrete"}
@@ -75,6 +79,7 @@ MemberOK(f) ==
     [] f.t \in Encoding \ {"selfmix"} -> f.p \notin SkipSet                 \* p: TypeInfo from the parameter bound
     [] f.t = "selfmix" -> f.p \notin SkipSet
     [] f.t = "compactp" -> f.p \notin SkipSet                               \* p: TypeInfo (parameter bound) and p: HasCompact (member bound)
+    [] f.t \in NamedLikeSelf -> TRUE                                         \* bound on the member type itself
     [] f.t = "compactassoc" -> TRUE                                         \* the member bound must give HasCompact AND TypeInfo
     [] f.t \in {"assoc", "qassoc"} -> AssocBound(f.p)
     [] f.t = "vecassoc" -> AssocBound(f.p) \/ VecAssocBound(f.p)
